@@ -75,15 +75,22 @@ func pathsWithBlocks(fn *ssa.Function, from, to *ssa.BasicBlock) ([]cfgPath, boo
 				ifc = i.Cond
 			}
 		}
+		known := -1
+		if ifc != nil {
+			ifc, known = resolveCondOnPath(ifc, order)
+		}
 		for si, s := range b.Succs {
 			if onPath[s] || !canReach[s] {
 				continue
 			}
-			if ifc != nil {
+			if known >= 0 && (si == 0) != (known == 1) {
+				continue
+			}
+			if ifc != nil && known < 0 {
 				cur = append(cur, condEdge{ifc, si == 0})
 			}
 			dfs(s)
-			if ifc != nil {
+			if ifc != nil && known < 0 {
 				cur = cur[:len(cur)-1]
 			}
 		}
@@ -457,6 +464,18 @@ func returnsNonNilLast(ret *ssa.Return) bool {
 	last := ret.Results[len(ret.Results)-1]
 	if c, ok := last.(*ssa.Const); ok && c.Value == nil {
 		return false
+	}
+	// a result spilled because of a defer: "store cell <- nil; return *cell"
+	if vals := resolveSpill(last); len(vals) > 0 {
+		allNil := true
+		for _, v := range vals {
+			if c, ok := v.(*ssa.Const); !ok || c.Value != nil {
+				allNil = false
+			}
+		}
+		if allNil {
+			return false
+		}
 	}
 	return true
 }
